@@ -14,21 +14,119 @@ Fixpoint uint_chars (u : uint) : str :=
 Definition print_z (z : Z) : str :=
   match Z.to_int z with Pos u => uint_chars u | Neg u => 45%N :: uint_chars u end.
 
+(* Reference definitions over the unbounded value ... *)
 Definition parse_digits (ds : str) : option Z :=
   match ds with [] => None | _ => if forallb is_digit ds then Some (value ds) else None end.
-(* <i64 as FromStr>: optional sign, at least one digit, range check *)
-Definition parse_i64 (s : str) : option Z :=
+Definition parse_i64_spec (s : str) : option Z :=
   let r := match s with
            | 45%N :: ds => option_map Z.opp (parse_digits ds)
            | 43%N :: ds => parse_digits ds
            | _ => parse_digits s end in
   match r with Some v => if (i64min <=? v) && (v <=? i64max) then Some v else None | None => None end.
-(* <u64 as FromStr>: optional '+', at least one digit, range check *)
-Definition parse_u64 (s : str) : option Z :=
+Definition parse_u64_spec (s : str) : option Z :=
   let r := match s with
            | 43%N :: ds => parse_digits ds
            | _ => parse_digits s end in
   match r with Some v => if v <=? u64max then Some v else None | None => None end.
+(* ... and what the executable models run: the digit value with a ceiling just
+   above u64::MAX (linear time on any number of digits); equal by
+   [parse_i64_eq] / [parse_u64_eq]. *)
+Definition cap64 : Z := (u64max + 1)%Z.
+Definition parse_digits_c (ds : str) : option Z :=
+  match ds with [] => None | _ => if forallb is_digit ds then Some (cvalue cap64 ds) else None end.
+(* <i64 as FromStr>: optional sign, at least one digit, range check *)
+Definition parse_i64 (s : str) : option Z :=
+  let r := match s with
+           | 45%N :: ds => option_map Z.opp (parse_digits_c ds)
+           | 43%N :: ds => parse_digits_c ds
+           | _ => parse_digits_c s end in
+  match r with Some v => if (i64min <=? v) && (v <=? i64max) then Some v else None | None => None end.
+(* <u64 as FromStr>: optional '+', at least one digit, range check *)
+Definition parse_u64 (s : str) : option Z :=
+  let r := match s with
+           | 43%N :: ds => parse_digits_c ds
+           | _ => parse_digits_c s end in
+  match r with Some v => if v <=? u64max then Some v else None | None => None end.
+
+Lemma parse_digits_c_eq ds : parse_digits_c ds = option_map (fun v => Z.min v cap64) (parse_digits ds).
+Proof.
+  unfold parse_digits_c, parse_digits. destruct ds as [|d ds]; [reflexivity|].
+  destruct (forallb is_digit (d :: ds)) eqn:E; [|reflexivity]. cbn [option_map]. f_equal.
+  apply cvalue_spec; [unfold cap64, u64max; lia|exact E].
+Qed.
+Lemma fold_value_nonneg ds : forall a, forallb is_digit ds = true -> (0 <= a)%Z ->
+  (0 <= fold_left (fun acc d => 10 * acc + digit_val d) ds a)%Z.
+Proof.
+  induction ds as [|d ds IH]; intros a H Ha; cbn [fold_left]; [exact Ha|].
+  cbn [forallb] in H. apply andb_prop in H as [H1 H2]. apply IH; auto.
+  unfold digit_val, is_digit in *. apply andb_prop in H1 as [X1 X2]. apply N.leb_le in X1, X2. lia.
+Qed.
+Lemma value_nonneg ds : forallb is_digit ds = true -> (0 <= value ds)%Z.
+Proof. intros H. unfold value. apply fold_value_nonneg; auto. lia. Qed.
+Lemma parse_digits_nonneg ds v : parse_digits ds = Some v -> (0 <= v)%Z.
+Proof. unfold parse_digits. destruct ds as [|d ds]; [discriminate|]. destruct (forallb is_digit (d :: ds)) eqn:E; [|discriminate].
+  intros [= <-]. apply value_nonneg; auto. Qed.
+Lemma range_i64_cap v : (0 <= v)%Z ->
+  (if (i64min <=? Z.min v cap64) && (Z.min v cap64 <=? i64max) then Some (Z.min v cap64) else None) =
+  (if (i64min <=? v) && (v <=? i64max) then Some v else None).
+Proof.
+  intros H. unfold cap64, u64max, i64min, i64max in *.
+  destruct (Z.le_gt_cases v 18446744073709551616) as [L|G].
+  - rewrite Z.min_l by lia. reflexivity.
+  - rewrite Z.min_r by lia.
+    replace (18446744073709551616 <=? 9223372036854775807)%Z with false by reflexivity.
+    replace (v <=? 9223372036854775807)%Z with false by (symmetry; apply Z.leb_gt; lia).
+    rewrite !andb_false_r. reflexivity.
+Qed.
+Lemma range_i64_cap_neg v : (0 <= v)%Z ->
+  (if (i64min <=? - Z.min v cap64) && (- Z.min v cap64 <=? i64max) then Some (- Z.min v cap64) else None) =
+  (if (i64min <=? - v) && (- v <=? i64max) then Some (- v) else None).
+Proof.
+  intros H. unfold cap64, u64max, i64min, i64max in *.
+  destruct (Z.le_gt_cases v 18446744073709551616) as [L|G].
+  - rewrite Z.min_l by lia. reflexivity.
+  - rewrite Z.min_r by lia.
+    replace (-9223372036854775808 <=? - 18446744073709551616)%Z with false by reflexivity.
+    replace (-9223372036854775808 <=? - v)%Z with false by (symmetry; apply Z.leb_gt; lia).
+    reflexivity.
+Qed.
+Theorem parse_i64_eq s : parse_i64 s = parse_i64_spec s.
+Proof.
+  unfold parse_i64, parse_i64_spec.
+  assert (forall ds, match parse_digits_c ds with Some v => if (i64min <=? v) && (v <=? i64max) then Some v else None | None => None end =
+                     match parse_digits ds with Some v => if (i64min <=? v) && (v <=? i64max) then Some v else None | None => None end) as P.
+  { intros ds. rewrite parse_digits_c_eq. destruct (parse_digits ds) as [v|] eqn:E; [|reflexivity]. cbn [option_map].
+    apply range_i64_cap. eapply parse_digits_nonneg; eauto. }
+  assert (forall ds, match option_map Z.opp (parse_digits_c ds) with Some v => if (i64min <=? v) && (v <=? i64max) then Some v else None | None => None end =
+                     match option_map Z.opp (parse_digits ds) with Some v => if (i64min <=? v) && (v <=? i64max) then Some v else None | None => None end) as Q.
+  { intros ds. rewrite parse_digits_c_eq. destruct (parse_digits ds) as [v|] eqn:E; [|reflexivity]. cbn [option_map].
+    apply range_i64_cap_neg. eapply parse_digits_nonneg; eauto. }
+  destruct s as [|c r]; [reflexivity|].
+  destruct c as [|p]; [apply P|].
+  destruct (Pos.eq_dec p 45) as [->|N1]; [apply Q|].
+  destruct (Pos.eq_dec p 43) as [->|N2]; [apply P|].
+  assert (forall (X Y Z0 : option Z), match Npos p with 45%N => X | 43%N => Y | _ => Z0 end = Z0) as Sel.
+  { intros X Y Z0. clear -N1 N2. repeat (destruct p as [p|p|]; try reflexivity); congruence. }
+  rewrite !Sel. apply P.
+Qed.
+Theorem parse_u64_eq s : parse_u64 s = parse_u64_spec s.
+Proof.
+  unfold parse_u64, parse_u64_spec.
+  assert (forall ds, match parse_digits_c ds with Some v => if v <=? u64max then Some v else None | None => None end =
+                     match parse_digits ds with Some v => if v <=? u64max then Some v else None | None => None end) as P.
+  { intros ds. rewrite parse_digits_c_eq. destruct (parse_digits ds) as [v|] eqn:E; [|reflexivity]. cbn [option_map].
+    pose proof (parse_digits_nonneg _ _ E) as Hv. unfold cap64, u64max in *.
+    destruct (Z.le_gt_cases v 18446744073709551616) as [L|G].
+    - rewrite Z.min_l by lia. reflexivity.
+    - rewrite Z.min_r by lia. replace (18446744073709551616 <=? 18446744073709551615)%Z with false by reflexivity.
+      replace (v <=? 18446744073709551615)%Z with false by (symmetry; apply Z.leb_gt; lia). reflexivity. }
+  destruct s as [|c r]; [reflexivity|].
+  destruct c as [|p]; [apply P|].
+  destruct (Pos.eq_dec p 43) as [->|N2]; [apply P|].
+  assert (forall (Y Z0 : option Z), match Npos p with 43%N => Y | _ => Z0 end = Z0) as Sel.
+  { intros Y Z0. clear -N2. repeat (destruct p as [p|p|]; try reflexivity); congruence. }
+  rewrite !Sel. apply P.
+Qed.
 
 Lemma uint_chars_digits u : forallb is_digit (uint_chars u) = true.
 Proof. induction u; cbn; auto. Qed.
@@ -82,7 +180,7 @@ Qed.
 
 Theorem parse_print_i64 z : i64min <= z <= i64max -> parse_i64 (print_z z) = Some z.
 Proof.
-  intros R. unfold parse_i64, print_z. pose proof (DecimalZ.of_to z) as OT.
+  intros R. rewrite parse_i64_eq. unfold parse_i64_spec, print_z. pose proof (DecimalZ.of_to z) as OT.
   destruct (Z.to_int z) as [u|u] eqn:E.
   - assert (u <> Nil) as Hn by (apply (to_int_nonnil z); auto).
     assert (Z.of_N (Pos.of_uint u) = z) as V by (cbn in OT; exact OT).
@@ -103,7 +201,7 @@ Qed.
 
 Theorem parse_print_u64 z : 0 <= z <= u64max -> parse_u64 (print_z z) = Some z.
 Proof.
-  intros R. unfold parse_u64, print_z. pose proof (DecimalZ.of_to z) as OT.
+  intros R. rewrite parse_u64_eq. unfold parse_u64_spec, print_z. pose proof (DecimalZ.of_to z) as OT.
   destruct (Z.to_int z) as [u|u] eqn:E.
   - assert (u <> Nil) as Hn by (apply (to_int_nonnil z); auto).
     assert (Z.of_N (Pos.of_uint u) = z) as V by (cbn in OT; exact OT).
